@@ -138,6 +138,10 @@ impl Property for C15 {
                 outage_end = to;
             }
         }
+        // contacts (or the path to them) that deliver every answer twice, back to back
+        if rng.chance(1, 4) {
+            sc.net.dup_ppm = *rng.pick(&[200_000u32, 1_000_000]);
+        }
         sc.reals.push(real);
         sc.at(0, Op::Start { node: 0 });
         // waiters
@@ -325,7 +329,7 @@ impl Property for C15 {
         v
     }
     fn rule(&self) -> &'static str {
-        "one real node per run; 0..30 node contacts and 0..6 IP-literal routers (overlapping, duplicated spellings), each backed by an answering / silent / erroring / garbage / late-starting / going-silent stub or by nothing; read-only on/off; outage plan (none, from start up to 2 h, flapping, partition, mid-run) via send errors or black-holing; 0..5 bootstrapped() callers at drawn times (1 in 5 gives up after 0 ms..30 s and drops its future); API sampled every 20 s. non-trivial = node had contacts or waiters and was sampled; distinct = distinct order digests"
+        "one real node per run; 0..30 node contacts and 0..6 IP-literal routers (overlapping, duplicated spellings), each backed by an answering / silent / erroring / garbage / late-starting / going-silent stub or by nothing; read-only on/off; outage plan (none, from start up to 2 h, flapping, partition, mid-run) via send errors or black-holing; in 1 run of 4 datagrams are duplicated (20 % or all of them); 0..5 bootstrapped() callers at drawn times (1 in 5 gives up after 0 ms..30 s and drops its future); API sampled every 20 s. non-trivial = node had contacts or waiters and was sampled; distinct = distinct order digests"
     }
     fn assumptions(&self) -> Vec<&'static str> {
         vec!["routers are IP literals (DNS is not simulated)", "the 11-minute bound is applied only when a plain-node contact answers every query from some instant on and the node is reachable from then on; no message loss in this family"]
